@@ -293,4 +293,60 @@ example : storeU idU Generated.LYD_HINT_DATA [98, 58, 108, 101, 102, 116] = .ok 
     storeU idU Generated.LYD_HINT_DATA [98, 58, 108, 101, 102, 116, 32] = .ok ⟨1, .str [98, 58, 108, 101, 102, 116, 32]⟩ ∧
     storeU idU Generated.LYD_HINT_DATA [97, 58, 116, 111, 112] = .ok ⟨1, .str [97, 58, 116, 111, 112]⟩ := by decide
 
+/-! ## leafref members -/
+
+/-- `sortU` is what `lyplg_type_sort_union` computes as long as every member stores its own type as `realtype` (all member types but
+    leafref): the loop over the `types` array then meets one of the two values. -/
+theorem sortUV_eq_sortU (ms : List Plug) (hown : ∀ m ∈ ms, m.ownRealtype = true) (a b : UVal) : sortUV ms a b = sortU ms a b := by
+  have hv : ∀ i : Nat, (ms[i]?.map Plug.ownRealtype).getD true = true := by
+    intro i
+    cases h : ms[i]? with
+    | none => rfl
+    | some m => exact hown m (List.mem_of_getElem? h)
+  unfold sortUV sortU
+  by_cases hi : (a.idx == b.idx) = true
+  · rw [if_pos hi, if_pos hi]
+  · rw [if_neg hi, if_neg hi, hv a.idx, hv b.idx]
+    simp only [if_true]
+
+/-- `union { type leafref { path "../a"; }  type leafref { path "../b"; } }` with `a` an int8 and `b` a string of length 2..3, both
+    `require-instance false` -/
+def lrefU : List Plug := [lrefPlug (MTy.base (.int .int8 [])).plug, lrefPlug (MTy.base (.str [(2, 3)])).plug]
+
+/-- Finding F424: a leafref member stores the TARGET's type as `realtype`, so `lyplg_type_sort_union` finds neither of two values that were
+    stored by two different leafref members: it returns 0 (and trips `assert(rc != 0)` in a build with assertions) although the
+    compare callback says the values differ — sort is not consistent with equality for unions with two leafref members. -/
+theorem union_sort_consistent_with_eq_leafref_fails :
+    ¬ ∀ a b : UVal, UValid lrefU a → UValid lrefU b → (sortUV lrefU a b = 0 ↔ cmpEqU lrefU a b = true) := by
+  intro h
+  have ha : UValid lrefU ⟨0, .num 1⟩ := ustored_valid ⟨Generated.LYD_HINT_DATA, [49], by decide⟩
+  have hb : UValid lrefU ⟨1, .str [120, 121]⟩ := ustored_valid ⟨Generated.LYD_HINT_DATA, [120, 121], by decide⟩
+  exact absurd ((h _ _ ha hb).mp (by decide)) (by decide)
+
+/-- What holds with leafref members: a value of a leafref member and a value of any other member are still ordered (the other member is
+    found), antisymmetrically; and everything else about the union (acceptance, canonical form, compare, LYB) is untouched, because the
+    leafref plug-in IS the target's plug-in for store / compare / print (`lrefPlug`). -/
+theorem union_sort_leafref_partial (ms : List Plug) (a b : UVal) (hi : a.idx ≠ b.idx)
+    (hown : (ms[a.idx]?.map Plug.ownRealtype).getD true = true ∨ (ms[b.idx]?.map Plug.ownRealtype).getD true = true) :
+    sortUV ms a b ≠ 0 ∧ sortUV ms a b = -sortUV ms b a := by
+  have h1 : (a.idx == b.idx) = false := by simpa using hi
+  have h2 : (b.idx == a.idx) = false := by simpa using (Ne.symm hi)
+  unfold sortUV
+  rw [h1, h2]
+  simp only [Bool.false_eq_true, if_false]
+  rcases Nat.lt_or_gt_of_ne hi with hlt | hgt
+  · have hn : ¬ b.idx < a.idx := by omega
+    rw [if_pos hlt, if_neg hn]
+    rcases hown with h | h
+    · rw [h]; simp
+    · rw [h]; cases (ms[a.idx]?.map Plug.ownRealtype).getD true <;> simp
+  · have hn : ¬ a.idx < b.idx := by omega
+    rw [if_neg hn, if_pos hgt]
+    rcases hown with h | h
+    · rw [h]; cases (ms[b.idx]?.map Plug.ownRealtype).getD true <;> simp
+    · rw [h]; simp
+
+example : storeU lrefU Generated.LYD_HINT_DATA [49] = .ok ⟨0, .num 1⟩ ∧ storeU lrefU Generated.LYD_HINT_DATA [120, 121] = .ok ⟨1, .str [120, 121]⟩ ∧
+    sortUV lrefU ⟨0, .num 1⟩ ⟨1, .str [120, 121]⟩ = 0 ∧ cmpEqU lrefU ⟨0, .num 1⟩ ⟨1, .str [120, 121]⟩ = false := by decide
+
 end LyModel.Props.C03Union
